@@ -3,7 +3,6 @@ package main
 import (
 	"fmt"
 	"math/rand"
-	"os"
 	"sort"
 	"strings"
 
@@ -93,6 +92,7 @@ func c09Dump(v *lex.VerifRegexp, res map[string]*lex.VerifRegexp, depth int, sb 
 
 type c09Gen struct {
 	rng   *rand.Rand
+	empty bool // empty character classes may be generated
 	bytes bool
 	named []string
 	eoi   bool
@@ -148,6 +148,12 @@ func (g *c09Gen) class() string {
 
 func (g *c09Gen) atom(depth int) string {
 	r := g.rng
+	if g.empty && r.Intn(40) == 0 {
+		if g.bytes {
+			return `[^\x00-\xff]`
+		}
+		return `[^\x00-\x{10ffff}]`
+	}
 	switch k := r.Intn(16); {
 	case k < 6:
 		return g.lit()
@@ -276,12 +282,12 @@ var c09Realistic = []struct {
 	{`é+|ée`, 0},
 }
 
-func c09Generate(r *rand.Rand) c09Set {
+func c09Generate(r *rand.Rand, allowEmpty bool) c09Set {
 	var s c09Set
 	s.bytes = r.Intn(4) == 0
 	s.backtracking = r.Intn(10) != 0
 	s.named = map[string]string{}
-	g := &c09Gen{rng: r, bytes: s.bytes, eoi: r.Intn(4) == 0}
+	g := &c09Gen{rng: r, empty: allowEmpty, bytes: s.bytes, eoi: r.Intn(4) == 0}
 	tag := func(t string) { s.tags = append(s.tags, t) }
 	if r.Intn(4) == 0 {
 		nn := 1 + r.Intn(3)
@@ -633,68 +639,54 @@ func c09EoiProbe() (ok bool, got string) {
 	return res == "0:1", res
 }
 
-// c09Explicit emits one case with the given texts only (no enumeration).
-func c09Explicit(c *Ctx, s c09Set, texts [][2]string) {
-	comp, _ := c09Compile(s)
+// c09DeadProbe: an empty character class must not leave a transition into a state without continuations
+// (rules /a[^\x00-\x{10ffff}]b/ -> 2, /c/ -> 3, text "ab": no rule can extend "a", the invalid token is empty).
+func c09DeadProbe() (ok bool, got string) {
+	ds := c09Set{rules: []c09Rule{{pattern: `a[^\x00-\x{10ffff}]b`, action: 2, scs: []int{0}}, {pattern: "c", action: 3, scs: []int{0}}}, backtracking: true}
+	comp, why := c09Compile(ds)
 	if comp == nil {
-		return
+		return false, "probe did not compile: " + why
 	}
-	var m, tx []string
-	for _, x := range texts {
-		var sc int
-		fmt.Sscan(x[0], &sc)
-		res, _ := c09Scan(comp.t, sc, x[1])
-		m = append(m, res)
-		tx = append(tx, x[0]+":"+hexs([]byte(x[1])))
-	}
-	line := comp.rules + " " + c24TablesLine(comp.t) + " x 0 - " + strings.Join(tx, " ")
-	answer := fmt.Sprintf("wf=1 classes=1 dfa=ok m=%s s=%s xm=- xs=-", strings.Join(m, ","), strings.Join(m, ","))
-	c.Case(line, answer, line)
+	res, _ := c09Scan(comp.t, 0, "ab")
+	return res == "0:0", res
 }
 
 func c09(c *Ctx) {
 	r := c.Rng
-	findings := os.Getenv("VERIF_FINDINGS") != ""
+	// Two known defects are probed on the real code at start-up; while a probe fails the defect is reported once
+	// (c.Violate with its token) and the random stream avoids exactly that input class.
 	eoiOK, probe := c09EoiProbe()
-	avoidEoi := !eoiOK && !findings
+	deadOK, deadGot := c09DeadProbe()
+	avoidEoi := !eoiOK
 	c.Extra["eoi_probe_ok"] = eoiOK
+	c.Extra["dead_state_probe_ok"] = deadOK
 	c.Rule = "rule sets of 1-12 rules generated as pattern texts: keyword families over a 3-4 letter alphabet with shared prefixes (with and without a lower-priority identifier class, " +
 		"so that backtracking checkpoints are needed), realistic token sets (identifiers, numbers, comments, strings, operator families like . / ... and - / -> / -->), random expressions " +
 		"(literals incl. non-ASCII, classes, negated classes, \\w \\d \\s \\p{..}, '.', groups, alternation, * + ? {n} {n,m} {n,}, (?i:..), named patterns {name} that may use other named patterns, {eoi}); " +
 		"Precedence 0 / -1 for class rules / random -2..2, shared actions, 1-3 start conditions with random membership, fold option, byte mode (1/4), backtracking allowed (9/10); " +
 		"parsed by the real lex.ParseRegexp, compiled by the real lex.Compile (rule sets it rejects are counted and skipped). " +
-		"Texts per rule set: (empty character classes such as [^\\x00-\\x{10ffff}] are not generated: known minor defect [C09-dead-state], shown under VERIF_FINDINGS=1) the empty text in every start condition and random walks through the real DFA (code points picked at the start / end / inside of a segment of the symbol map), " +
+		"Texts per rule set: the empty text in every start condition and random walks through the real DFA (code points picked at the start / end / inside of a segment of the symbol map), " +
 		"continued past token ends, with arbitrary characters, invalid UTF-8 (lone continuation bytes, truncated sequences, overlong forms, surrogates, > U+10FFFF) and raw bytes injected; " +
 		"plus every string of up to L class representatives (L as large as fits the budget, <= 5) in every start condition. " +
 		"Go answers: the real Tables.Scan on every text. Non-trivial = at least 2 DFA states; distinct by rules+texts."
 	if !eoiOK {
-		note := fmt.Sprintf("end-of-input probe FAILED on the real Tables.Scan: rules /a/=>2 /{eoi}/=>1, Scan(0, \"\") returned %s, the property demands 0:1 (Scan does not follow a transition on end of input)", probe)
-		c.Notes = append(c.Notes, note)
-		if findings {
-			c.Violate("[C09-eoi-shift] "+note, "rules /a/=>2 /{eoi}/=>1 text \"\"")
-			c09Explicit(c, c09Set{rules: []c09Rule{{pattern: "a", action: 2, scs: []int{0}}, {pattern: "{eoi}", action: 1, scs: []int{0}}}, backtracking: true},
-				[][2]string{{"0", ""}, {"0", "a"}, {"0", "b"}})
-		} else {
-			c.Rule += " AVOIDED CLASS (known defect, probe failed; VERIF_FINDINGS=1 includes and flags it): texts at whose end the DFA has a transition (or checkpoint) on end of input, i.e. an {eoi} of some rule could match there."
-		}
+		what := fmt.Sprintf("[C09-eoi-shift] end-of-input probe FAILED on the real Tables.Scan: rules /a/=>2 /{eoi}/=>1, Scan(0, \"\") returned %s, the property demands 0:1 (Scan does not follow a transition on end of input)", probe)
+		c.Notes = append(c.Notes, what)
+		c.Violate(what, "rules /a/=>2 /{eoi}/=>1 text \"\"")
+		c.Rule += " AVOIDED CLASS [C09-eoi-shift] (probe failed): texts at whose end the DFA has a transition (or checkpoint) on end of input, i.e. an {eoi} of some rule could match there."
 	}
-	if findings {
-		// [C09-dead-state] an empty character class leaves a DFA state from which no rule can match: the invalid
-		// token is one character longer than "the longest prefix some rule could still extend".
-		ds := c09Set{rules: []c09Rule{{pattern: `a[^\x00-\x{10ffff}]b`, action: 2, scs: []int{0}}, {pattern: "c", action: 3, scs: []int{0}}}, backtracking: true}
-		if comp, _ := c09Compile(ds); comp != nil {
-			if res, _ := c09Scan(comp.t, 0, "ab"); res != "0:0" {
-				c.Violate("[C09-dead-state] rules /a[^\\x00-\\x{10ffff}]b/=>2 /c/=>3: Scan(0, \"ab\") returned "+res+
-					", the property demands 0:0 (no rule can extend \"a\": the class is empty, but the DFA keeps a transition on 'a' into a state without continuations)", "rules /a[^\\x00-\\x{10ffff}]b/=>2 /c/=>3 text \"ab\"")
-			}
-		}
-		c09Explicit(c, ds, [][2]string{{"0", "ab"}, {"0", "a"}, {"0", "c"}})
+	if !deadOK {
+		what := "[C09-dead-state] empty-class probe FAILED on the real lex.Compile/Tables.Scan: rules /a[^\\x00-\\x{10ffff}]b/=>2 /c/=>3, Scan(0, \"ab\") returned " + deadGot +
+			", the property demands 0:0 (no rule can extend \"a\": the class is empty, but the DFA keeps a transition on 'a' into a state without continuations)"
+		c.Notes = append(c.Notes, what)
+		c.Violate(what, "rules /a[^\\x00-\\x{10ffff}]b/=>2 /c/=>3 text \"ab\"")
+		c.Rule += " AVOIDED CLASS [C09-dead-state] (probe failed): patterns containing an empty character class ([^\\x00-\\x{10ffff}], in byte mode [^\\x00-\\xff]); generated (1 atom in 40) only when the probe passes."
 	}
 	n := c.N(600, 6000)
 	budget := c.N(250, 3000) // enumerated strings per rule set
 	emitted := 0
 	for attempt := 0; emitted < n && attempt < 40*n; attempt++ {
-		s := c09Generate(r)
+		s := c09Generate(r, deadOK)
 		comp, why := c09Compile(s)
 		if comp == nil {
 			c.Count("skipped: " + why)
